@@ -125,6 +125,13 @@ Theorem C16_strip_only_nitrogql : forall model_plugin d,
 Proof. exact strip_only_nitrogql. Qed.
 Print Assumptions C16_strip_only_nitrogql.
 
+(** removing [@n] keeps every other directive application, in order, whatever the position of [@n] *)
+Theorem C16_strip_keeps_order : forall n a m b0,
+  dir_named n m = true -> has_dir n a = false -> has_dir n b0 = false ->
+  drop_dirs n (a ++ m :: b0) = a ++ b0.
+Proof. exact strip_keeps_order. Qed.
+Print Assumptions C16_strip_keeps_order.
+
 Theorem C16_remove_builtins_idempotent : forall d, remove_builtins (remove_builtins d) = remove_builtins d.
 Proof. exact remove_builtins_idempotent. Qed.
 Print Assumptions C16_remove_builtins_idempotent.
